@@ -590,3 +590,83 @@ func c14R6(c *Ctx) {
 	}
 	c.R.Check(okNew, r, "pipeline.Service.Update: reserves the new name", c.Pos(fn.Pos()), "instanceNames[cfg.Name] = true", "the new name is not reserved in the name index", true)
 }
+
+// livePersisted: a service method that fetched the live instance persists that
+// very instance; if it persists a different object instead (a copy that carries
+// the change), the copy sets every exported field of the instance type — a copy
+// that leaves one out (State, ProcessorIDs, …) overwrites the stored record with
+// its zero value although memory still has it.
+func livePersisted(c *Ctx, r string) {
+	n := 0
+	for _, rel := range []string{pPipe, pConn, pProc} {
+		p := c.W.Pkg(rel)
+		if p == nil {
+			continue
+		}
+		sp := c.W.SSA[p.Types]
+		set := c.Fn(r, rel, "(*Store).Set")
+		get := c.Fn(r, rel, "(*Service).Get")
+		svcT := c.W.LookupType(rel, "Service")
+		instT := c.W.LookupType(rel, "Instance")
+		if set == nil || get == nil || svcT == nil || instT == nil {
+			continue
+		}
+		st, _ := instT.Underlying().(*types.Struct)
+		ms := c.W.Prog.MethodSets.MethodSet(types.NewPointer(svcT))
+		for i := 0; i < ms.Len(); i++ {
+			fn := c.W.Prog.MethodValue(ms.At(i))
+			if fn == nil || fn.Pkg != sp {
+				continue
+			}
+			gets := kit.CallsTo(fn, Set(get))
+			if len(gets) == 0 {
+				continue
+			}
+			for _, call := range kit.CallsTo(fn, Set(set)) {
+				args := call.Common().Args
+				inst := kit.Unwrap(args[len(args)-1])
+				n++
+				live := false
+				for _, g := range gets {
+					if gv := kit.ResultN(g, 0); gv != nil && (inst == gv || kit.IsVar(inst, gv)) {
+						live = true
+					}
+				}
+				key := kit.FuncKey(fn) + ": persists the live instance (or a complete copy)"
+				if live {
+					c.R.Pass(r, key, c.Pos(call.Pos()), "the instance returned by Get", true)
+					continue
+				}
+				// a different object: every exported field must be assigned on it
+				missing := []string{}
+				if a, ok := inst.(*ssa.Alloc); ok && st != nil {
+					for fi := 0; fi < st.NumFields(); fi++ {
+						f := st.Field(fi)
+						if !f.Exported() {
+							continue
+						}
+						found := false
+						for _, b := range fn.Blocks {
+							for _, in := range b.Instrs {
+								if s2, ok := in.(*ssa.Store); ok {
+									if fa, ok := s2.Addr.(*ssa.FieldAddr); ok && fa.X == ssa.Value(a) && kit.SameField(kit.FieldOf(fa), f) {
+										found = true
+									}
+								}
+							}
+						}
+						if !found {
+							missing = append(missing, f.Name())
+						}
+					}
+				} else {
+					missing = append(missing, "(not a recognisable copy)")
+				}
+				c.R.Check(len(missing) == 0, r, key, c.Pos(call.Pos()), "complete copy", kit.FuncKey(fn)+" hands store.Set an object other than the live instance it fetched, and that object does not set "+strings.Join(missing, ", ")+": the stored record loses those fields (e.g. the connector's position) while memory still has them — a restart then loads the zero value", true)
+			}
+		}
+	}
+	if n == 0 {
+		c.R.Fail(r, "service methods that fetch and persist an instance", "", "none found")
+	}
+}
